@@ -11,9 +11,11 @@
 //! with the independent tokenizer/tree builder (hx_c06::html) and compares with the expected tree
 //! derived from the op (hx_c06::enc::expected).
 use futures::StreamExt;
-use hx_c06::enc::{self, Attr, Node};
+use hx_c06::enc::{self, Attr, Node, Ty};
 use hx_c06::html::{self, Tree};
 use hx_common::*;
+use leptos::either::Either;
+use leptos::oco::Oco;
 use leptos::prelude::*;
 use leptos::tachys::html::attribute::any_attribute::{AnyAttribute, IntoAnyAttribute};
 use leptos::tachys::html::attribute::custom::custom_attribute;
@@ -24,37 +26,219 @@ use leptos::tachys::html::element::{custom, inner_html, ElementChild};
 use leptos::tachys::html::style::style as style_attr;
 use leptos::tachys::view::add_attr::AddAnyAttr;
 use leptos::tachys::view::any_view::{AnyView, IntoAny};
+use leptos::tachys::view::fragment::Fragment;
+use leptos::tachys::view::iterators::StaticVec;
 use leptos::tachys::view::RenderHtml;
+use std::borrow::Cow;
+use std::net::{IpAddr, Ipv4Addr, Ipv6Addr, SocketAddr};
+use std::num::{NonZeroI32, NonZeroU64, NonZeroU8, NonZeroUsize};
 use std::panic::{catch_unwind, AssertUnwindSafe};
+use std::sync::Arc;
 
-const MAX_KIDS: usize = 6;
+const MAX_KIDS: usize = 8;
 
 fn leak(s: &str) -> &'static str {
     Box::leak(s.to_string().into_boxed_str())
 }
 
-fn build_attr(a: &Attr) -> AnyAttribute {
-    match a {
-        // a few typed attribute functions, the rest through `.attr(name, value)`
-        Attr::Plain(n, v) => match n.as_str() {
-            "id" => at::id(v.clone()).into_any_attr(),
-            "href" => at::href(v.clone()).into_any_attr(),
-            "title" => at::title(v.clone()).into_any_attr(),
-            "alt" => at::alt(v.clone()).into_any_attr(),
-            "value" => at::value(v.clone()).into_any_attr(),
-            "content" => at::content(v.clone()).into_any_attr(),
-            _ => custom_attribute(n.clone(), v.clone()).into_any_attr(),
-        },
+fn opt<T>(v: T, none: bool) -> Option<T> {
+    if none {
+        None
+    } else {
+        Some(v)
+    }
+}
+
+/// `$m!(name Type, …)` over the primitives that are both views (view/primitives.rs) and attribute
+/// values (attribute/value.rs `render_primitive!`); `bool` is a view only
+macro_rules! for_prims {
+    ($m:ident) => {
+        $m!("u8" u8, "u16" u16, "u32" u32, "u64" u64, "u128" u128, "usize" usize, "i8" i8, "i16" i16,
+            "i32" i32, "i64" i64, "i128" i128, "isize" isize, "f32" f32, "f64" f64, "char" char,
+            "IpAddr" IpAddr, "Ipv4Addr" Ipv4Addr, "Ipv6Addr" Ipv6Addr, "SocketAddr" SocketAddr,
+            "NonZeroU8" NonZeroU8, "NonZeroI32" NonZeroI32, "NonZeroU64" NonZeroU64,
+            "NonZeroUsize" NonZeroUsize);
+    };
+}
+
+/// the op carries the `Display` text; the typed value must print back to exactly that text
+fn parse_prim<T: std::str::FromStr + ToString>(s: &str) -> Option<T> {
+    let v: T = s.parse().ok()?;
+    if v.to_string() == s {
+        Some(v)
+    } else {
+        None
+    }
+}
+
+macro_rules! def_prim_child {
+    ($($name:literal $t:ty),*) => {
+        fn prim_child(ty: &str, s: &str) -> Option<AnyView> {
+            match ty {
+                $($name => Some(parse_prim::<$t>(s)?.into_any()),)*
+                "bool" => Some(parse_prim::<bool>(s)?.into_any()),
+                _ => None,
+            }
+        }
+    };
+}
+for_prims!(def_prim_child);
+
+macro_rules! def_plain_attr {
+    ($($name:literal $t:ty),*) => {
+        /// `.attr(name, value)` with the value of the type the op names (`Option<…>` for `?` / `-`)
+        fn plain_attr(n: &str, v: &str, t: &Ty) -> Option<AnyAttribute> {
+            let name = n.to_string();
+            let none = t.opt == '-';
+            macro_rules! mk {
+                ($val:expr) => {{
+                    let val = $val;
+                    Some(if t.opt == '=' {
+                        custom_attribute(name, val).into_any_attr()
+                    } else {
+                        custom_attribute(name, opt(val, none)).into_any_attr()
+                    })
+                }};
+            }
+            match t.ty.as_str() {
+                // a few typed attribute functions, the rest through `.attr(name, value)`
+                "String" if t.opt == '=' => Some(match n {
+                    "id" => at::id(v.to_string()).into_any_attr(),
+                    "href" => at::href(v.to_string()).into_any_attr(),
+                    "title" => at::title(v.to_string()).into_any_attr(),
+                    "alt" => at::alt(v.to_string()).into_any_attr(),
+                    "value" => at::value(v.to_string()).into_any_attr(),
+                    "content" => at::content(v.to_string()).into_any_attr(),
+                    _ => custom_attribute(name, v.to_string()).into_any_attr(),
+                }),
+                "String" => mk!(v.to_string()),
+                "str" => mk!(leak(v)),
+                "refString" => {
+                    let r: &'static String = Box::leak(Box::new(v.to_string()));
+                    mk!(r)
+                }
+                "Arc" => mk!(Arc::<str>::from(v)),
+                "Oco" => mk!(Oco::<'static, str>::from(v.to_string())),
+                "fn" => {
+                    let s = v.to_string();
+                    mk!(move || s.clone())
+                }
+                "typedchar" if t.opt == '=' => Some(at::value(parse_prim::<char>(v)?).into_any_attr()),
+                $($name => mk!(parse_prim::<$t>(v)?),)*
+                _ => None,
+            }
+        }
+    };
+}
+for_prims!(def_plain_attr);
+
+fn build_attr(a: &Attr) -> Option<AnyAttribute> {
+    Some(match a {
+        Attr::Plain(n, v, t) => plain_attr(n, v, t)?,
         Attr::Bool(n, b) => match n.as_str() {
             "hidden" => at::hidden(*b).into_any_attr(),
             _ => custom_attribute(n.clone(), *b).into_any_attr(),
         },
-        Attr::Class(v) => class_attr(v.clone()).into_any_attr(),
-        Attr::ClassToggle(n, b) => class_attr((leak(n), *b)).into_any_attr(),
-        Attr::Style(v) => style_attr(v.clone()).into_any_attr(),
-        Attr::StyleKV(n, v) => style_attr((n.clone(), v.clone())).into_any_attr(),
-        Attr::InnerHtml(v) => inner_html(v.clone()).into_any_attr(),
-    }
+        Attr::Class(v, t) => {
+            let none = t.opt == '-';
+            macro_rules! mk {
+                ($val:expr) => {{
+                    let val = $val;
+                    if t.opt == '=' {
+                        class_attr(val).into_any_attr()
+                    } else {
+                        class_attr(opt(val, none)).into_any_attr()
+                    }
+                }};
+            }
+            match t.ty.as_str() {
+                "String" => mk!(v.clone()),
+                "str" => mk!(leak(v)),
+                "Arc" => mk!(Arc::<str>::from(v.as_str())),
+                "Cow" => mk!(Cow::<'static, str>::Owned(v.clone())),
+                "CowB" => mk!(Cow::<'static, str>::Borrowed(leak(v))),
+                "Oco" => mk!(Oco::<'static, str>::from(v.clone())),
+                "fn" => {
+                    let s = v.clone();
+                    mk!(move || s.clone())
+                }
+                _ => return None,
+            }
+        }
+        Attr::ClassToggle(n, b, false) => class_attr((leak(n), *b)).into_any_attr(),
+        Attr::ClassToggle(n, b, true) => {
+            let b = *b;
+            class_attr((leak(n), move || b)).into_any_attr()
+        }
+        Attr::Style(v, t) => {
+            let none = t.opt == '-';
+            macro_rules! mk {
+                ($val:expr) => {{
+                    let val = $val;
+                    if t.opt == '=' {
+                        style_attr(val).into_any_attr()
+                    } else {
+                        style_attr(opt(val, none)).into_any_attr()
+                    }
+                }};
+            }
+            match t.ty.as_str() {
+                "String" => mk!(v.clone()),
+                "str" => mk!(leak(v)),
+                "Arc" => mk!(Arc::<str>::from(v.as_str())),
+                "Oco" => mk!(Oco::<'static, str>::from(v.clone())),
+                "fn" => {
+                    let s = v.clone();
+                    mk!(move || s.clone())
+                }
+                _ => return None,
+            }
+        }
+        Attr::StyleKV(n, v, t) => {
+            let none = t.opt == '-';
+            let name = n.clone();
+            macro_rules! mk {
+                ($val:expr) => {{
+                    let val = $val;
+                    if t.opt == '=' {
+                        style_attr((name, val)).into_any_attr()
+                    } else {
+                        style_attr((name, opt(val, none))).into_any_attr()
+                    }
+                }};
+            }
+            match t.ty.as_str() {
+                "String" => mk!(v.clone()),
+                "str" => mk!(leak(v)),
+                "Arc" => mk!(Arc::<str>::from(v.as_str())),
+                "Oco" => mk!(Oco::<'static, str>::from(v.clone())),
+                "fn" if t.opt == '=' => {
+                    let s = v.clone();
+                    style_attr((name, move || s.clone())).into_any_attr()
+                }
+                _ => return None,
+            }
+        }
+        Attr::InnerHtml(v, t) => {
+            let none = t.opt == '-';
+            macro_rules! mk {
+                ($val:expr) => {{
+                    let val = $val;
+                    if t.opt == '=' {
+                        inner_html(val).into_any_attr()
+                    } else {
+                        inner_html(opt(val, none)).into_any_attr()
+                    }
+                }};
+            }
+            match t.ty.as_str() {
+                "String" => mk!(v.clone()),
+                "str" => mk!(leak(v)),
+                "Arc" => mk!(Arc::<str>::from(v.as_str())),
+                _ => return None,
+            }
+        }
+    })
 }
 
 macro_rules! with_kids {
@@ -79,7 +263,26 @@ macro_rules! with_kids {
                 .child(k.next().unwrap())
                 .child(k.next().unwrap())
                 .into_any(),
+            6 => el
+                .child(k.next().unwrap())
+                .child(k.next().unwrap())
+                .child(k.next().unwrap())
+                .child(k.next().unwrap())
+                .child(k.next().unwrap())
+                .child(k.next().unwrap())
+                .into_any(),
+            7 => el
+                .child(k.next().unwrap())
+                .child(k.next().unwrap())
+                .child(k.next().unwrap())
+                .child(k.next().unwrap())
+                .child(k.next().unwrap())
+                .child(k.next().unwrap())
+                .child(k.next().unwrap())
+                .into_any(),
             _ => el
+                .child(k.next().unwrap())
+                .child(k.next().unwrap())
                 .child(k.next().unwrap())
                 .child(k.next().unwrap())
                 .child(k.next().unwrap())
@@ -102,14 +305,136 @@ macro_rules! by_tag {
     };
 }
 
+/// a child of a string type
+fn text_child(ty: &str, s: &str) -> Option<AnyView> {
+    Some(match ty {
+        "String" => s.to_string().into_any(),
+        "str" => leak(s).into_any(),
+        "Arc" => Arc::<str>::from(s).into_any(),
+        "Cow" => Cow::<'static, str>::Owned(s.to_string()).into_any(),
+        "CowB" => Cow::<'static, str>::Borrowed(leak(s)).into_any(),
+        "Oco" => Oco::<'static, str>::from(s.to_string()).into_any(),
+        "fn" => {
+            let s = s.to_string();
+            (move || s.clone()).into_any()
+        }
+        _ => return None,
+    })
+}
+
+/// a typed child container around its typed items
+fn cont<T>(kind: char, items: Vec<T>) -> Option<AnyView>
+where
+    T: RenderHtml + Send + 'static,
+{
+    let n = items.len();
+    let mut it = items.into_iter();
+    let mut nx = move || it.next().unwrap();
+    Some(match kind {
+        'V' => {
+            let v: Vec<T> = (0..n).map(|_| nx()).collect();
+            v.into_any()
+        }
+        'W' => {
+            let v: Vec<T> = (0..n).map(|_| nx()).collect();
+            StaticVec::from(v).into_any()
+        }
+        'Y' => match n {
+            0 => {
+                let a: [T; 0] = [];
+                a.into_any()
+            }
+            1 => [nx()].into_any(),
+            2 => [nx(), nx()].into_any(),
+            3 => [nx(), nx(), nx()].into_any(),
+            4 => [nx(), nx(), nx(), nx()].into_any(),
+            _ => return None,
+        },
+        'U' => match n {
+            0 => ().into_any(),
+            1 => (nx(),).into_any(),
+            2 => (nx(), nx()).into_any(),
+            3 => (nx(), nx(), nx()).into_any(),
+            4 => (nx(), nx(), nx(), nx()).into_any(),
+            _ => return None,
+        },
+        'O' if n == 1 => Some(nx()).into_any(),
+        'N' if n == 0 => None::<T>.into_any(),
+        'L' if n == 1 => Either::<T, AnyView>::Left(nx()).into_any(),
+        'R' if n == 1 => Either::<AnyView, T>::Right(nx()).into_any(),
+        _ => return None,
+    })
+}
+
+fn strings_of(kids: &[Node]) -> Option<Vec<String>> {
+    kids.iter().map(|k| if let Node::Text { s, .. } = k { Some(s.clone()) } else { None }).collect()
+}
+
+fn prims_of<T: std::str::FromStr + ToString>(kids: &[Node], want: &str) -> Option<Vec<T>> {
+    kids.iter()
+        .map(|k| match k {
+            Node::Prim { ty, s } if ty == want => parse_prim::<T>(s),
+            _ => None,
+        })
+        .collect()
+}
+
+fn build_cont(kind: char, ity: char, kids: &[Node]) -> Option<AnyView> {
+    if kids.len() > MAX_KIDS {
+        return None;
+    }
+    match ity {
+        'S' => cont(kind, strings_of(kids)?),
+        's' => cont(kind, strings_of(kids)?.iter().map(|s| leak(s)).collect::<Vec<&'static str>>()),
+        'a' => cont(kind, strings_of(kids)?.iter().map(|s| Arc::<str>::from(s.as_str())).collect()),
+        'w' => cont(kind, strings_of(kids)?.into_iter().map(Cow::<'static, str>::Owned).collect()),
+        'o' => cont(kind, strings_of(kids)?.into_iter().map(Oco::<'static, str>::from).collect()),
+        'c' => cont(kind, prims_of::<char>(kids, "char")?),
+        'i' => cont(kind, prims_of::<i32>(kids, "i32")?),
+        'q' => {
+            let items: Option<Vec<Option<String>>> = kids
+                .iter()
+                .map(|k| match k {
+                    Node::Cont { kind: 'O', ity: 'S', kids } => Some(Some(strings_of(kids)?.pop()?)),
+                    Node::Cont { kind: 'N', ity: 'S', .. } => Some(None),
+                    _ => None,
+                })
+                .collect();
+            cont(kind, items?)
+        }
+        'v' => {
+            let items: Option<Vec<Vec<String>>> = kids
+                .iter()
+                .map(|k| match k {
+                    Node::Cont { kind: 'V', ity: 'S', kids } => strings_of(kids),
+                    _ => None,
+                })
+                .collect();
+            cont(kind, items?)
+        }
+        '*' => {
+            let items: Vec<AnyView> = kids.iter().map(build).collect::<Option<_>>()?;
+            if kind == 'F' {
+                Some(AnyView::from(Fragment::new(items)))
+            } else {
+                cont(kind, items)
+            }
+        }
+        _ => None,
+    }
+}
+
 fn build(n: &Node) -> Option<AnyView> {
     match n {
-        Node::Text(s) => Some(s.clone().into_any()),
+        Node::Text { ty, s } => text_child(ty, s),
+        Node::Prim { ty, s } => prim_child(ty, s),
+        Node::Unit => Some(().into_any()),
+        Node::Cont { kind, ity, kids } => build_cont(*kind, *ity, kids),
         Node::Elem { tag, attrs, kids } => {
             if kids.len() > MAX_KIDS {
                 return None;
             }
-            let attrs: Vec<AnyAttribute> = attrs.iter().map(build_attr).collect();
+            let attrs: Vec<AnyAttribute> = attrs.iter().map(build_attr).collect::<Option<_>>()?;
             let kids: Vec<AnyView> = kids.iter().map(build).collect::<Option<_>>()?;
             by_tag!(tag.as_str(), attrs, kids;
                 [div, span, section, article, main, header, footer, aside, nav, blockquote, figure, label,
@@ -135,7 +460,7 @@ fn render_view(nodes: &[Node]) -> Option<String> {
         4 => (k.next().unwrap(), k.next().unwrap(), k.next().unwrap(), k.next().unwrap()).to_html(),
         5 => (k.next().unwrap(), k.next().unwrap(), k.next().unwrap(), k.next().unwrap(), k.next().unwrap())
             .to_html(),
-        _ => (
+        6 => (
             k.next().unwrap(),
             k.next().unwrap(),
             k.next().unwrap(),
@@ -144,6 +469,10 @@ fn render_view(nodes: &[Node]) -> Option<String> {
             k.next().unwrap(),
         )
             .to_html(),
+        _ => {
+            let v: Vec<AnyView> = k.collect();
+            StaticVec::from(v).to_html()
+        }
     })
 }
 
@@ -193,7 +522,7 @@ fn render_head(title: &Option<String>, metas: &[MetaOp]) -> Option<String> {
 }
 
 fn meta_node(m: &MetaOp) -> Node {
-    let p = |n: &str, v: &String| Attr::Plain(n.into(), v.clone());
+    let p = |n: &str, v: &String| Attr::Plain(n.into(), v.clone(), Ty::string());
     let attrs = match m.kind {
         'n' => vec![p("name", &m.a), p("content", &m.b)],
         'p' => vec![p("property", &m.a), p("content", &m.b)],
@@ -299,6 +628,28 @@ const HOSTILE: &[&str] = &[
 ];
 const DIRTY: &[&str] = &["\0", "\r", "\r\n", "a\0b", "\0<"];
 const BENIGN: &[&str] = &["a", "b", "hello", "x1", "z", "ok", "var a=1;", "p{color:red}", " ", "A", "é", "日本"];
+const HOSTILE_CHARS: &[char] =
+    &['<', '>', '&', '"', '\'', '/', '=', '`', ' ', 'a', 'é', '日', '😀', '\u{a0}', ';', '#', '!', '-', '?', '\n'];
+
+/// string types per position (the first one is the plain `String`)
+const TEXT_TYS: &[&str] = &["String", "str", "Arc", "Cow", "CowB", "Oco", "fn"];
+const ATTR_STR_TYS: &[&str] = &["String", "str", "refString", "Arc", "Oco", "fn"];
+const CLASS_TYS: &[&str] = &["String", "str", "Arc", "Cow", "CowB", "Oco", "fn"];
+const STYLE_TYS: &[&str] = &["String", "str", "Arc", "Oco", "fn"];
+const KV_TYS: &[&str] = &["String", "str", "Arc", "Oco"];
+const INNER_TYS: &[&str] = &["String", "str", "Arc"];
+const STR_ITEM_TYS: &[char] = &['S', 's', 'a', 'w', 'o'];
+
+/// sample values of every primitive type (Display text)
+const PRIMS: &[(&str, &[&str])] = &[
+    ("u8", &["0", "255"]), ("u16", &["65535"]), ("u32", &["7", "4294967295"]), ("u64", &["18446744073709551615"]),
+    ("u128", &["340282366920938463463374607431768211455"]), ("usize", &["42"]), ("i8", &["-128"]), ("i16", &["-1"]),
+    ("i32", &["-2147483648", "0", "13"]), ("i64", &["-9223372036854775808"]), ("i128", &["-5"]), ("isize", &["-7"]),
+    ("f32", &["1.5", "-0", "NaN", "inf", "0.1"]), ("f64", &["-inf", "2.5", "100000000000000000000", "0.000001", "NaN"]),
+    ("IpAddr", &["127.0.0.1", "::1"]), ("Ipv4Addr", &["10.0.0.255"]), ("Ipv6Addr", &["2001:db8::1"]),
+    ("SocketAddr", &["127.0.0.1:80", "[::1]:8080"]), ("NonZeroU8", &["1"]), ("NonZeroI32", &["-3"]),
+    ("NonZeroU64", &["9"]), ("NonZeroUsize", &["5"]),
+];
 
 fn pk(r: &mut Rng, xs: &[&'static str]) -> &'static str {
     xs[r.below(xs.len())]
@@ -307,7 +658,6 @@ fn pk(r: &mut Rng, xs: &[&'static str]) -> &'static str {
 struct Ctx {
     raw_text: bool, // may raw-text elements get string children?
     dirty: bool,    // may strings contain NUL / CR?
-    tags: std::collections::BTreeSet<String>,
 }
 
 fn gen_str(r: &mut Rng, c: &mut Ctx) -> String {
@@ -326,25 +676,57 @@ fn gen_str(r: &mut Rng, c: &mut Ctx) -> String {
                 };
                 s.push(char::from_u32(cp).unwrap_or('\u{fffd}'));
             }
-            c.tags.insert("unicode".into());
         }
         _ => {
             for _ in 0..r.range(1, 3) {
                 if c.dirty && r.chance(1, 3) {
-                    let d = pk(r, DIRTY);
-                    c.tags.insert(if d.contains('\0') { "nul".into() } else { "cr".into() });
-                    s.push_str(d);
+                    s.push_str(pk(r, DIRTY));
                 } else {
                     s.push_str(pk(r, HOSTILE));
                 }
             }
-            c.tags.insert("hostile".into());
         }
     }
-    if s.is_empty() {
-        c.tags.insert("empty-str".into());
-    }
     s
+}
+
+/// a value type for a position: mostly `String`, otherwise any of `tys`, sometimes behind `Option`
+fn gen_ty(r: &mut Rng, tys: &[&'static str], allow_opt: bool) -> Ty {
+    let ty = if r.chance(2, 5) { tys[0] } else { pk(r, tys) };
+    let opt = if allow_opt && ty != "fn" && ty != "refString" && r.chance(1, 5) {
+        if r.chance(1, 3) {
+            '-'
+        } else {
+            '?'
+        }
+    } else {
+        '='
+    };
+    Ty { opt, ty: ty.into() }
+}
+
+fn gen_text(r: &mut Rng, c: &mut Ctx) -> Node {
+    let ty = if r.chance(1, 2) { "String" } else { pk(r, TEXT_TYS) };
+    Node::Text { ty: ty.into(), s: gen_str(r, c) }
+}
+
+fn gen_char(r: &mut Rng, c: &Ctx) -> char {
+    match r.below(4) {
+        0 => char::from_u32(r.range(0x20, 0x2fff) as u32).unwrap_or('x'),
+        1 if c.dirty => *r.pick(&['\0', '\r']),
+        _ => *r.pick(HOSTILE_CHARS),
+    }
+}
+
+fn gen_prim(r: &mut Rng, c: &Ctx) -> Node {
+    if r.chance(1, 2) {
+        Node::Prim { ty: "char".into(), s: gen_char(r, c).to_string() }
+    } else if r.chance(1, 8) {
+        Node::Prim { ty: "bool".into(), s: pk(r, &["true", "false"]).into() }
+    } else {
+        let (ty, vals) = PRIMS[r.below(PRIMS.len())];
+        Node::Prim { ty: ty.into(), s: pk(r, vals).into() }
+    }
 }
 
 const ATTR_NAMES: &[&str] =
@@ -360,45 +742,53 @@ fn gen_attrs(r: &mut Rng, c: &mut Ctx, allow_inner: bool) -> Vec<Attr> {
     let mut out = vec![];
     let mut used: Vec<&str> = vec![];
     for _ in 0..r.below(4) {
-        match r.below(9) {
+        match r.below(10) {
             0 | 1 | 2 => {
                 let n = pk(r, ATTR_NAMES);
                 if used.contains(&n) {
                     continue;
                 }
                 used.push(n);
-                out.push(Attr::Plain(n.into(), gen_str(r, c)));
-                c.tags.insert("attr".into());
+                out.push(Attr::Plain(n.into(), gen_str(r, c), gen_ty(r, ATTR_STR_TYS, true)));
             }
             3 => {
+                // a primitive as attribute value
+                let n = pk(r, ATTR_NAMES);
+                if used.contains(&n) {
+                    continue;
+                }
+                used.push(n);
+                let (ty, v) = if r.chance(1, 2) {
+                    ("char", gen_char(r, c).to_string())
+                } else {
+                    let (ty, vals) = PRIMS[r.below(PRIMS.len())];
+                    (ty, pk(r, vals).to_string())
+                };
+                let opt = *r.pick(&['=', '=', '=', '?', '-']);
+                out.push(Attr::Plain(n.into(), v, Ty { opt, ty: ty.into() }));
+            }
+            4 => {
                 let n = pk(r, BOOL_NAMES);
                 if used.contains(&n) {
                     continue;
                 }
                 used.push(n);
                 out.push(Attr::Bool(n.into(), r.chance(2, 3)));
-                c.tags.insert("bool-attr".into());
             }
-            4 => {
-                out.push(Attr::Class(gen_str(r, c)));
-                c.tags.insert("class".into());
-            }
-            5 => {
-                out.push(Attr::ClassToggle(gen_str(r, c), r.chance(2, 3)));
-                c.tags.insert("class-toggle".into());
-            }
-            6 => {
-                out.push(Attr::Style(gen_str(r, c)));
-                c.tags.insert("style".into());
-            }
-            7 => {
-                out.push(Attr::StyleKV(pk(r, &["color", "--v", "width"]).to_string(), gen_str(r, c)));
-                c.tags.insert("style-kv".into());
+            5 => out.push(Attr::Class(gen_str(r, c), gen_ty(r, CLASS_TYS, true))),
+            6 => out.push(Attr::ClassToggle(gen_str(r, c), r.chance(2, 3), r.chance(1, 3))),
+            7 => out.push(Attr::Style(gen_str(r, c), gen_ty(r, STYLE_TYS, true))),
+            8 => {
+                let mut t = gen_ty(r, KV_TYS, true);
+                if r.chance(1, 8) {
+                    t = Ty { opt: '=', ty: "fn".into() };
+                }
+                out.push(Attr::StyleKV(pk(r, &["color", "--v", "width"]).to_string(), gen_str(r, c), t))
             }
             _ => {
-                if allow_inner && !out.iter().any(|a| matches!(a, Attr::InnerHtml(_))) {
-                    out.push(Attr::InnerHtml(pk(r, INNER).to_string()));
-                    c.tags.insert("inner-html".into());
+                if allow_inner && !out.iter().any(|a| matches!(a, Attr::InnerHtml(..))) {
+                    let t = gen_ty(r, INNER_TYS, false);
+                    out.push(Attr::InnerHtml(pk(r, INNER).to_string(), t));
                 }
             }
         }
@@ -406,21 +796,74 @@ fn gen_attrs(r: &mut Rng, c: &mut Ctx, allow_inner: bool) -> Vec<Attr> {
     out
 }
 
+/// a child container; `strings_only`: inside a raw-text element
+fn gen_cont(r: &mut Rng, c: &mut Ctx, depth: usize, anc: &mut Vec<&'static str>, strings_only: bool) -> Node {
+    let kind = if strings_only { *r.pick(&['V', 'V', 'Y', 'W', 'U', 'O', 'N', 'L', 'R']) } else { *r.pick(&['V', 'V', 'V', 'Y', 'W', 'U', 'O', 'N', 'L', 'R', 'F']) };
+    let single = matches!(kind, 'O' | 'L' | 'R');
+    let n = match kind {
+        'N' => 0,
+        _ if single => 1,
+        _ => r.below(4),
+    };
+    // item type: direct strings most of the time
+    let ity = match r.below(10) {
+        0..=4 => *r.pick(STR_ITEM_TYS),
+        5 => 'c',
+        6 => 'i',
+        7 if !single && kind != 'N' => *r.pick(&['q', 'v']),
+        _ if strings_only => 'S',
+        _ => '*',
+    };
+    let ity = if kind == 'F' { '*' } else { ity };
+    let ity = if strings_only && ity == '*' { 'S' } else { ity };
+    let kids: Vec<Node> = match ity {
+        'c' => (0..n).map(|_| Node::Prim { ty: "char".into(), s: gen_char(r, c).to_string() }).collect(),
+        'i' => (0..n).map(|_| Node::Prim { ty: "i32".into(), s: pk(r, &["-2147483648", "0", "13"]).into() }).collect(),
+        'q' => (0..n)
+            .map(|_| {
+                if r.chance(1, 3) {
+                    Node::Cont { kind: 'N', ity: 'S', kids: vec![] }
+                } else {
+                    Node::Cont { kind: 'O', ity: 'S', kids: vec![Node::text(&gen_str(r, c))] }
+                }
+            })
+            .collect(),
+        'v' => (0..n)
+            .map(|_| Node::Cont { kind: 'V', ity: 'S', kids: (0..r.below(3)).map(|_| Node::text(&gen_str(r, c))).collect() })
+            .collect(),
+        '*' => {
+            let mut k = gen_kids(r, c, depth.saturating_sub(1), anc, if single { 1 } else { 3 });
+            if single {
+                if k.is_empty() {
+                    k.push(gen_text(r, c));
+                }
+                k.truncate(1);
+            } else if kind == 'N' {
+                k.clear();
+            }
+            k
+        }
+        _ => (0..n).map(|_| Node::text(&gen_str(r, c))).collect(),
+    };
+    Node::Cont { kind, ity, kids }
+}
+
 fn gen_kids(r: &mut Rng, c: &mut Ctx, depth: usize, anc: &mut Vec<&'static str>, max: usize) -> Vec<Node> {
     let n = r.below(max + 1);
     let mut out: Vec<Node> = vec![];
     for _ in 0..n {
-        let last_text = matches!(out.last(), Some(Node::Text(_)));
-        let pick = if depth == 0 { r.below(4) } else { r.below(10) };
+        let pick = if depth == 0 { r.below(6) } else { r.below(14) };
         match pick {
-            0..=3 => {
-                if last_text {
-                    c.tags.insert("adjacent-text".into());
+            0..=2 => out.push(gen_text(r, c)),
+            3 => out.push(gen_prim(r, c)),
+            4 | 5 | 12 => {
+                if r.chance(1, 8) {
+                    out.push(Node::Unit)
+                } else {
+                    out.push(gen_cont(r, c, depth, anc, false))
                 }
-                out.push(Node::Text(gen_str(r, c)));
-                c.tags.insert("text".into());
             }
-            4..=6 => {
+            6..=8 | 13 => {
                 let tag: &'static str = if r.chance(1, 8) { pk(r, CUSTOM) } else { pk(r, GENERIC) };
                 let a: Vec<&str> = anc.iter().rev().copied().collect();
                 if !html::nest_ok(tag, &a) {
@@ -428,44 +871,44 @@ fn gen_kids(r: &mut Rng, c: &mut Ctx, depth: usize, anc: &mut Vec<&'static str>,
                 }
                 let inner = r.chance(1, 10);
                 let attrs = gen_attrs(r, c, inner);
-                let has_inner = attrs.iter().any(|a| matches!(a, Attr::InnerHtml(_)));
+                let has_inner = !enc::inner_of(&attrs).is_empty();
                 anc.push(tag);
                 let kids = if has_inner { vec![] } else { gen_kids(r, c, depth - 1, anc, 4) };
                 anc.pop();
-                if html::is_custom_tag(tag) {
-                    c.tags.insert("custom-el".into());
-                }
-                c.tags.insert(format!("depth{}", 5 - depth));
                 out.push(Node::Elem { tag: tag.into(), attrs, kids });
             }
-            7 => {
+            9 => {
                 let tag = pk(r, VOIDS);
                 let a: Vec<&str> = anc.iter().rev().copied().collect();
                 if !html::nest_ok(tag, &a) {
                     continue;
                 }
-                c.tags.insert("void".into());
                 out.push(Node::Elem { tag: tag.into(), attrs: gen_attrs(r, c, false), kids: vec![] });
             }
-            8 => {
+            10 => {
                 let tag = pk(r, RAWS);
                 let attrs = gen_attrs(r, c, false);
                 let kids: Vec<Node> = if c.raw_text {
-                    c.tags.insert("raw-text-child".into());
-                    (0..r.range(1, 2)).map(|_| Node::Text(gen_str(r, c))).collect()
+                    (0..r.range(1, 2))
+                        .map(|_| match r.below(4) {
+                            0 => gen_cont(r, c, 0, anc, true),
+                            1 => gen_prim(r, c),
+                            _ => gen_text(r, c),
+                        })
+                        .collect()
                 } else if r.chance(1, 3) {
                     // harmless content: exercised on the passing side
-                    c.tags.insert("raw-benign-child".into());
-                    vec![Node::Text(pk(r, &["a", "var a=1;", "p{color:red}", "x y"]).to_string())]
+                    vec![Node::text(pk(r, &["a", "var a=1;", "p{color:red}", "x y"]))]
+                } else if r.chance(1, 4) {
+                    // containers without any string print nothing here
+                    vec![Node::Cont { kind: *r.pick(&['V', 'Y', 'N', 'U']), ity: 'S', kids: vec![] }]
                 } else {
                     vec![]
                 };
-                c.tags.insert("raw-el".into());
                 out.push(Node::Elem { tag: tag.into(), attrs, kids });
             }
             _ => {
-                let kids = if r.chance(3, 4) { vec![Node::Text(gen_str(r, c))] } else { vec![] };
-                c.tags.insert("title-el".into());
+                let kids = if r.chance(3, 4) { vec![gen_text(r, c)] } else { vec![] };
                 out.push(Node::Elem { tag: "title".into(), attrs: gen_attrs(r, c, false), kids });
             }
         }
@@ -473,32 +916,154 @@ fn gen_kids(r: &mut Rng, c: &mut Ctx, depth: usize, anc: &mut Vec<&'static str>,
     out
 }
 
-fn small_scope() -> Vec<(String, String)> {
-    // every hostile atom in every kind of string position
-    let mut out = vec![];
-    let el = |tag: &str, attrs: Vec<Attr>, kids: Vec<Node>| Node::Elem { tag: tag.into(), attrs, kids };
+fn el(tag: &str, attrs: Vec<Attr>, kids: Vec<Node>) -> Node {
+    Node::Elem { tag: tag.into(), attrs, kids }
+}
+
+fn ty(opt: char, t: &str) -> Ty {
+    Ty { opt, ty: t.into() }
+}
+
+/// every hostile atom in every kind of string position and through every value type / container
+fn small_scope() -> Vec<String> {
+    let mut out: Vec<String> = vec![];
     for (i, a) in HOSTILE.iter().chain(DIRTY.iter()).enumerate() {
+        let mut views: Vec<Vec<Node>> = vec![];
         let s = a.to_string();
-        let t = || Node::Text(s.clone());
-        let views: Vec<(&str, Vec<Node>)> = vec![
-            ("text", vec![el("div", vec![], vec![t()])]),
-            ("adjacent-text", vec![el("p", vec![], vec![t(), t(), Node::Text(String::new()), t()])]),
-            ("attr", vec![el("a", vec![Attr::Plain("href".into(), s.clone())], vec![])]),
-            ("attr", vec![el("input", vec![Attr::Plain("value".into(), s.clone()), Attr::Bool("disabled".into(), true)], vec![])]),
-            ("class", vec![el("span", vec![Attr::Class(s.clone()), Attr::ClassToggle(s.clone(), true), Attr::Class("k".into())], vec![])]),
-            ("style", vec![el("div", vec![Attr::Style(s.clone()), Attr::StyleKV("color".into(), s.clone())], vec![])]),
-            ("title-el", vec![el("title", vec![], vec![t()])]),
-            ("raw-text-child", vec![el("textarea", vec![], vec![t()])]),
-            ("raw-text-child", vec![el("script", vec![], vec![t()])]),
-            ("raw-text-child", vec![el("style", vec![], vec![t()])]),
-            ("raw-text-child", vec![el("noscript", vec![], vec![t()])]),
-            ("custom-el", vec![el("x-foo", vec![Attr::Plain("data-x".into(), s.clone())], vec![t()]), t()]),
-        ];
-        for (j, (tag, v)) in views.into_iter().enumerate() {
-            out.push((format!("case ss{i}-{j}\nview {}", enc::encode(&v)), format!("small-scope,{tag}")));
+        let t = || Node::text(&s);
+        let tt = |ty: &str| Node::Text { ty: ty.into(), s: s.clone() };
+        let c = |kind: char, ity: char, kids: Vec<Node>| Node::Cont { kind, ity, kids };
+        let mut p = |v: Vec<Node>| views.push(v);
+        // positions, `String`
+        p(vec![el("div", vec![], vec![t()])]);
+        p(vec![el("p", vec![], vec![t(), t(), Node::text(""), t()])]);
+        p(vec![el("a", vec![Attr::Plain("href".into(), s.clone(), Ty::string())], vec![])]);
+        p(vec![el("input", vec![Attr::Plain("value".into(), s.clone(), Ty::string()), Attr::Bool("disabled".into(), true)], vec![])]);
+        p(vec![el("span", vec![Attr::Class(s.clone(), Ty::string()), Attr::ClassToggle(s.clone(), true, false), Attr::Class("k".into(), Ty::string())], vec![])]);
+        p(vec![el("div", vec![Attr::Style(s.clone(), Ty::string()), Attr::StyleKV("color".into(), s.clone(), Ty::string())], vec![])]);
+        p(vec![el("title", vec![], vec![t()])]);
+        for raw in RAWS {
+            p(vec![el(raw, vec![], vec![t()])]);
         }
-        out.push((format!("case ssh{i}\nhead t{} mn,{},{} mc,{},", enc::hx(&s), enc::hx(&s), enc::hx(&s), enc::hx(&s)), "small-scope,head-title,meta".into()));
+        p(vec![el("x-foo", vec![Attr::Plain("data-x".into(), s.clone(), Ty::string())], vec![t()]), t()]);
+        // every string type in a text position
+        p(vec![el("div", vec![], TEXT_TYS.iter().map(|ty| tt(ty)).collect())]);
+        for ty_ in &TEXT_TYS[1..] {
+            p(vec![el("span", vec![], vec![tt(ty_)])]);
+        }
+        // every value type of an attribute, a class, a style
+        p(vec![el(
+            "a",
+            ATTR_STR_TYS.iter().zip(ATTR_NAMES).map(|(t_, n)| Attr::Plain(n.to_string(), s.clone(), ty('=', t_))).collect(),
+            vec![],
+        )]);
+        p(vec![el(
+            "a",
+            vec![
+                Attr::Plain("id".into(), s.clone(), ty('?', "String")),
+                Attr::Plain("href".into(), s.clone(), ty('?', "str")),
+                Attr::Plain("lang".into(), s.clone(), ty('?', "Arc")),
+                Attr::Plain("alt".into(), s.clone(), ty('?', "Oco")),
+                Attr::Plain("name".into(), s.clone(), ty('-', "String")),
+            ],
+            vec![],
+        )]);
+        p(vec![el("b", CLASS_TYS.iter().map(|t_| Attr::Class(s.clone(), ty('=', t_))).collect(), vec![])]);
+        p(vec![el(
+            "b",
+            vec![Attr::Class(s.clone(), ty('?', "String")), Attr::Class(s.clone(), ty('-', "String")), Attr::Class(s.clone(), ty('?', "Arc")), Attr::ClassToggle(s.clone(), true, true)],
+            vec![],
+        )]);
+        p(vec![el("i", STYLE_TYS.iter().map(|t_| Attr::Style(s.clone(), ty('=', t_))).collect(), vec![])]);
+        p(vec![el(
+            "i",
+            vec![Attr::Style(s.clone(), ty('?', "String")), Attr::Style(s.clone(), ty('-', "String")), Attr::Style(s.clone(), ty('?', "Oco"))],
+            vec![],
+        )]);
+        p(vec![el(
+            "em",
+            KV_TYS
+                .iter()
+                .map(|t_| Attr::StyleKV("color".into(), s.clone(), ty('=', t_)))
+                .chain([
+                    Attr::StyleKV("width".into(), s.clone(), ty('=', "fn")),
+                    Attr::StyleKV("--v".into(), s.clone(), ty('?', "String")),
+                    Attr::StyleKV("--w".into(), s.clone(), ty('-', "str")),
+                ])
+                .collect(),
+            vec![],
+        )]);
+        // child containers with direct string items
+        for kind in ['V', 'Y', 'W', 'U'] {
+            for ity in STR_ITEM_TYS {
+                p(vec![el("p", vec![], vec![c(kind, *ity, vec![Node::text("safe"), t()]), t()])]);
+            }
+        }
+        for kind in ['O', 'L', 'R'] {
+            for ity in ['S', 's', 'a'] {
+                p(vec![el("p", vec![], vec![t(), c(kind, ity, vec![t()]), c('N', ity, vec![]), t()])]);
+            }
+        }
+        p(vec![el("div", vec![], vec![c('F', '*', vec![t(), el("b", vec![], vec![t()]), t()])])]);
+        p(vec![el("div", vec![], vec![c('V', 'q', vec![c('O', 'S', vec![t()]), c('N', 'S', vec![]), c('O', 'S', vec![t()])])])]);
+        p(vec![el("div", vec![], vec![c('V', 'v', vec![c('V', 'S', vec![t(), t()]), c('V', 'S', vec![])]), t()])]);
+        p(vec![el("div", vec![], vec![c('V', '*', vec![c('O', 'S', vec![t()]), c('Y', 's', vec![t(), t()]), el("i", vec![], vec![c('W', 'a', vec![t()])]), Node::Unit])])]);
+        p(vec![c('V', 'S', vec![t(), t()]), t(), c('U', 'S', vec![t()])]);
+        p(vec![el("textarea", vec![], vec![c('V', 'S', vec![t()])])]);
+        p(vec![el("script", vec![], vec![c('O', 'S', vec![t()])])]);
+        // a single character: `char` as child, as attribute value, in containers
+        let mut cs = s.chars();
+        if let (Some(ch), None) = (cs.next(), cs.next()) {
+            let pc = || Node::Prim { ty: "char".into(), s: ch.to_string() };
+            p(vec![el("div", vec![], vec![pc()])]);
+            p(vec![el("div", vec![], vec![pc(), t(), pc(), el("b", vec![], vec![]), pc()]), pc()]);
+            p(vec![el("p", vec![], vec![c('V', 'c', vec![pc(), pc()]), c('O', 'c', vec![pc()]), c('Y', 'c', vec![pc()])])]);
+            p(vec![el(
+                "input",
+                vec![
+                    Attr::Plain("value".into(), ch.to_string(), ty('=', "char")),
+                    Attr::Plain("alt".into(), ch.to_string(), ty('?', "char")),
+                    Attr::Plain("lang".into(), ch.to_string(), ty('-', "char")),
+                ],
+                vec![],
+            )]);
+            p(vec![el("input", vec![Attr::Plain("value".into(), ch.to_string(), ty('=', "typedchar"))], vec![])]);
+        }
+        for (j, v) in views.iter().enumerate() {
+            out.push(format!("case ss{i}-{j}\nview {}", enc::encode(v)));
+        }
+        out.push(format!(
+            "case ssh{i}\nhead t{} mn,{},{} mc,{},",
+            enc::hx(&s),
+            enc::hx(&s),
+            enc::hx(&s),
+            enc::hx(&s)
+        ));
     }
+    // every primitive type as child, as attribute value (plain / Some / None), in a Vec
+    for (i, (t_, vals)) in PRIMS.iter().enumerate() {
+        for (j, v) in vals.iter().enumerate() {
+            let pr = || Node::Prim { ty: t_.to_string(), s: v.to_string() };
+            let view = vec![el(
+                "div",
+                vec![
+                    Attr::Plain("data-x".into(), v.to_string(), ty('=', t_)),
+                    Attr::Plain("title".into(), v.to_string(), ty('?', t_)),
+                    Attr::Plain("lang".into(), v.to_string(), ty('-', t_)),
+                ],
+                vec![pr(), Node::text("<"), pr(), Node::Cont { kind: 'V', ity: '*', kids: vec![pr(), pr()] }],
+            )];
+            out.push(format!("case prim{i}-{j}\nview {}", enc::encode(&view)));
+        }
+    }
+    out.push(format!(
+        "case prim-bool\nview {}",
+        enc::encode(&[el(
+            "p",
+            vec![],
+            vec![Node::Prim { ty: "bool".into(), s: "true".into() }, Node::Prim { ty: "bool".into(), s: "false".into() }]
+        )])
+    ));
     out
 }
 
@@ -506,13 +1071,13 @@ fn gen(seed: u64, n: usize, path: &str) -> std::io::Result<()> {
     use std::io::Write;
     let mut r = Rng::new(seed);
     let mut f = std::io::BufWriter::new(std::fs::File::create(path)?);
-    for (ops, _) in small_scope() {
+    for ops in small_scope() {
         writeln!(f, "{ops}")?;
     }
     for i in 0..n {
-        let mut c = Ctx { raw_text: r.chance(1, 6), dirty: r.chance(1, 8), tags: Default::default() };
+        let mut c = Ctx { raw_text: r.chance(1, 6), dirty: r.chance(1, 8) };
         writeln!(f, "case {i}")?;
-        if r.chance(1, 6) {
+        if r.chance(1, 8) {
             // head
             let title = match r.below(4) {
                 0 => None,
@@ -523,7 +1088,6 @@ fn gen(seed: u64, n: usize, path: &str) -> std::io::Result<()> {
             match &title {
                 None => line.push('-'),
                 Some(t) => {
-                    c.tags.insert("head-title".into());
                     line.push('t');
                     line.push_str(&enc::hx(t));
                 }
@@ -533,16 +1097,13 @@ fn gen(seed: u64, n: usize, path: &str) -> std::io::Result<()> {
                 let a = if r.chance(1, 2) { pk(&mut r, &["description", "og:title", "utf-8", "refresh"]).to_string() } else { gen_str(&mut r, &mut c) };
                 let b = if k == 'c' { String::new() } else { gen_str(&mut r, &mut c) };
                 line.push_str(&format!(" m{k},{},{}", enc::hx(&a), enc::hx(&b)));
-                c.tags.insert("meta".into());
             }
-            c.tags.insert("head".into());
             writeln!(f, "{line}")?;
         } else {
             let mut anc: Vec<&'static str> = vec![];
             let mut v = gen_kids(&mut r, &mut c, 4, &mut anc, 3);
             if v.is_empty() {
-                v.push(Node::Text(gen_str(&mut r, &mut c)));
-                c.tags.insert("text".into());
+                v.push(gen_text(&mut r, &mut c));
             }
             writeln!(f, "view {}", enc::encode(&v))?;
         }
@@ -550,7 +1111,11 @@ fn gen(seed: u64, n: usize, path: &str) -> std::io::Result<()> {
     f.flush()
 }
 
-fn str_tags(s: &str, t: &mut std::collections::BTreeSet<String>) {
+// ---------------------------------------------------------------- tags (positions / shapes / types hit)
+
+type Tags = std::collections::BTreeSet<String>;
+
+fn str_tags(s: &str, t: &mut Tags) {
     if s.is_empty() {
         t.insert("empty-str".into());
     }
@@ -574,60 +1139,107 @@ fn str_tags(s: &str, t: &mut std::collections::BTreeSet<String>) {
     }
 }
 
-fn node_tags(nodes: &[Node], depth: usize, t: &mut std::collections::BTreeSet<String>) {
+fn ty_tag(prefix: &str, ty: &Ty, t: &mut Tags) {
+    t.insert(format!("{prefix}:{}", ty.ty));
+    match ty.opt {
+        '?' => {
+            t.insert(format!("{prefix}:Some"));
+        }
+        '-' => {
+            t.insert(format!("{prefix}:None"));
+        }
+        _ => {}
+    }
+}
+
+fn node_tags(nodes: &[Node], depth: usize, in_raw: bool, t: &mut Tags) {
     let mut prev_text = false;
     for n in nodes {
         match n {
-            Node::Text(s) => {
+            Node::Text { ty, s } => {
                 t.insert("text".into());
+                t.insert(format!("text:{ty}"));
                 if prev_text {
                     t.insert("adjacent-text".into());
+                }
+                if in_raw {
+                    t.insert("raw-text-child".into());
                 }
                 str_tags(s, t);
                 prev_text = true;
             }
+            Node::Prim { ty, s } => {
+                t.insert(format!("prim:{ty}"));
+                if in_raw {
+                    t.insert("raw-text-child".into());
+                }
+                str_tags(s, t);
+                prev_text = true;
+            }
+            Node::Unit => {
+                t.insert("unit".into());
+                prev_text = false;
+            }
+            Node::Cont { kind, ity, kids } => {
+                t.insert(format!("cont:{kind}"));
+                t.insert(format!("cont:{kind}{ity}"));
+                node_tags(kids, depth, in_raw, t);
+                prev_text = false;
+            }
             Node::Elem { tag, attrs, kids } => {
                 prev_text = false;
                 t.insert(format!("depth{}", depth + 1));
+                let raw = enc::TACHYS_RAW.contains(&tag.as_str());
                 if enc::TACHYS_VOID.contains(&tag.as_str()) {
                     t.insert("void".into());
-                } else if enc::TACHYS_RAW.contains(&tag.as_str()) {
+                } else if raw {
                     t.insert("raw-el".into());
-                    if kids.iter().any(|k| matches!(k, Node::Text(_))) {
-                        t.insert("raw-text-child".into());
-                    }
                 } else if tag == "title" {
                     t.insert("title-el".into());
                 } else if html::is_custom_tag(tag) {
                     t.insert("custom-el".into());
                 }
                 for a in attrs {
-                    let (k, ss): (&str, Vec<&String>) = match a {
-                        Attr::Plain(_, v) => ("attr", vec![v]),
-                        Attr::Bool(..) => ("bool-attr", vec![]),
-                        Attr::Class(v) => ("class", vec![v]),
-                        Attr::ClassToggle(n, _) => ("class-toggle", vec![n]),
-                        Attr::Style(v) => ("style", vec![v]),
-                        Attr::StyleKV(_, v) => ("style-kv", vec![v]),
-                        Attr::InnerHtml(_) => ("inner-html", vec![]),
-                    };
-                    t.insert(k.into());
-                    for s in ss {
-                        str_tags(s, t);
+                    match a {
+                        Attr::Plain(_, v, ty) => {
+                            t.insert("attr".into());
+                            ty_tag("attr", ty, t);
+                            str_tags(v, t);
+                        }
+                        Attr::Bool(..) => {
+                            t.insert("bool-attr".into());
+                        }
+                        Attr::Class(v, ty) => {
+                            ty_tag("class", ty, t);
+                            str_tags(v, t);
+                        }
+                        Attr::ClassToggle(n, _, f) => {
+                            t.insert(if *f { "class-toggle:fn".into() } else { "class-toggle".into() });
+                            str_tags(n, t);
+                        }
+                        Attr::Style(v, ty) => {
+                            ty_tag("style", ty, t);
+                            str_tags(v, t);
+                        }
+                        Attr::StyleKV(_, v, ty) => {
+                            ty_tag("style-kv", ty, t);
+                            str_tags(v, t);
+                        }
+                        Attr::InnerHtml(_, ty) => ty_tag("inner-html", ty, t),
                     }
                 }
-                node_tags(kids, depth + 1, t);
+                node_tags(kids, depth + 1, raw, t);
             }
         }
     }
 }
 
 fn tags_of_op(w: &[&str]) -> String {
-    let mut t = std::collections::BTreeSet::new();
+    let mut t = Tags::new();
     match w {
         ["view", e] => {
             if let Some(nodes) = enc::decode(e) {
-                node_tags(&nodes, 0, &mut t);
+                node_tags(&nodes, 0, false, &mut t);
             }
         }
         ["head", title, ms @ ..] => {
